@@ -24,6 +24,16 @@ ITEMS = [
     ("p-num", "pattern", "-?[0-9]+(\\.[0-9]+)?"),
     ("p-alt", "pattern", "(a|b)*abb"),
     ("p-bad", "pattern", "[9-0]"),
+    # failures of every kind, alone and combined: what one failed run leaves behind must not reach the next run
+    ("p-syn", "pattern", "(a"),
+    ("p-sem-syn", "pattern", "a{4,2}("),
+    ("p-sem-syn2", "pattern", "[9-0]x)"),
+    ("p-sem", "pattern", "a{4,2}"),
+    ("s-badpat", "spec", G % "badpat" + 'NUM = /[0-9]{3,1}(/;\nID = /[a-z]+/;\nstart = NUM ID;\n'),
+    ("s-lexerr", "spec", G % "lexerr" + 'start = "a" # ;\n'),
+    ("s-synerr", "spec", G % "synerr" + 'start = = "a";\n'),
+    ("s-predef", "spec", G % "predef" + 'WS = $SPACE;\nNUM = $NUMBER;\nstart = NUM;\n'),
+    ("s-conflict", "spec", ORDER_SENSITIVE["dfa-conflicts"]),
 ]
 
 
@@ -66,6 +76,7 @@ def run(ck):
     # sequential processing, all orders of up to 3 (4) items of a sub-pool and rotations of the whole pool
     idx = list(range(len(items)))
     orders = [list(p) for n in (2, 3) for p in itertools.permutations(idx[:6] if quick else idx[:8], n)]
+    orders += [list(p) for p in itertools.permutations(idx, 2) if list(p) not in orders]          # every ordered pair of the whole pool
     orders += [idx[i:] + idx[:i] for i in range(len(idx))] + [idx[::-1]]
     if not quick:
         orders += [list(p) for p in itertools.permutations(idx[6:], 4)]
